@@ -347,7 +347,12 @@ def text(n, depth=0):
     if k == "IntegerLiteral":
         return str(n.get("value"))
     if k == "FloatingLiteral":
-        return str(n.get("value"))
+        v = str(n.get("value"))
+        try:
+            f = float(v)
+            return repr(f) if f != int(f) else "%d.0" % int(f)
+        except ValueError:
+            return v
     if k == "CXXBoolLiteralExpr":
         return str(n.get("value")).lower()
     if k == "BinaryOperator" or k == "CompoundAssignOperator":
@@ -374,7 +379,9 @@ def text(n, depth=0):
             return "(%s%s)" % (sym, text(args[0]))
         return "%s(%s)" % (op, ", ".join(text(a) for a in args))
     if k in ("CXXConstructExpr", "CXXTemporaryObjectExpr"):
-        t = qtype(n).split("::")[-1]
+        if len(ks) == 1:
+            return text(ks[0])      # copy / converting constructor: transparent
+        t = qtype(n).replace("const ", "").split("::")[-1]
         return "%s(%s)" % (t, ", ".join(text(a) for a in ks))
     if k == "ConditionalOperator":
         return "(%s ? %s : %s)" % (text(ks[0]), text(ks[1]), text(ks[2]))
